@@ -207,6 +207,27 @@ example : verifyMultiPoints (⟨[3, 21, 46], [5, 35, 43, 99]⟩ : VK K) [98, 27]
     [[19, 8, 34], [89, 70, 16]] 65 13 = .ok false := by decide +kernel
 example : ([2, 3, 10] : List K).Nodup := by decide
 
+/-- **Streaming KZG, algebraic forger against `verify`.**  `C = g·p(τ)`, any proof element built from the
+published powers, `π = Σ aᵢ·(τⁱg)`, any claimed value: acceptance is exactly "the trapdoor is a root of
+`p − v − a·(X − α)`", which for a false value is a non-zero polynomial (value `p(α) − v` at `α`). -/
+theorem single_point_algebraic_forgery_reveals_trapdoor (g g2 τ : F) (a' b : Nat) (ha : 1 ≤ a')
+    (hb : 2 ≤ b) (p a : List F) (α v : F) (hg : g ≠ 0) (hg2 : g2 ≠ 0) (hv : v ≠ evalPoly p α)
+    (hacc : verify ⟨PCV.powers g τ a', PCV.powers g2 τ b⟩ (g * evalPoly p τ) α v (g * evalPoly a τ)
+      = .ok true) :
+    evalPoly (KZG.extractPoly p a α v) τ = 0 ∧ evalPoly (KZG.extractPoly p a α v) α ≠ 0 := by
+  refine ⟨(SKZG.single_forgery_root g g2 τ a' b ha hb p a α v hg hg2).1 hacc, ?_⟩
+  rw [KZG.eval_extractPoly]
+  simp only [sub_self, mul_zero, sub_zero]
+  exact fun h0 => hv (sub_eq_zero.1 h0).symm
+
+/-- … counted: all but at most `max(|p|, |a|+1) − 1` trapdoors refuse a false value -/
+theorem single_point_algebraic_forgery_exceptional_set (p a : List F) (α v : F) (hv : v ≠ evalPoly p α) :
+    ∃ S : Finset F, S.card ≤ max (max p.length 1) (a.length + 1) - 1 ∧
+      ∀ (g g2 τ : F) (a' b : Nat), g ≠ 0 → g2 ≠ 0 → 1 ≤ a' → 2 ≤ b → τ ∉ S →
+        verify ⟨PCV.powers g τ a', PCV.powers g2 τ b⟩ (g * evalPoly p τ) α v (g * evalPoly a τ)
+          ≠ .ok true :=
+  SKZG.single_forgery_exceptional_set p a α v hv
+
 /-! ### multi-point verifier against ANY proof element an algebraic prover can form -/
 
 /-- **Streaming KZG, algebraic forger against `verify_multi_points`.**  Honest commitments, a well-formed
